@@ -58,6 +58,10 @@ CTX = {
         "method": (["class K {{", "  m(q) {{", "    const g = () => q + {t};", "    return g;", "  }}", "}}"], None),
         "UPPER-const": (["const LIMIT_A = {t};", "function f(q) {{", "  return q;", "}}"], "const"),
         "enum-member": (["enum Color {{", "  Red = {t},", "}}"], "const"),
+        "template-interpolation": (["function f(q) {{", "  return `n=${{q * {t}}} items`;", "}}"], None),
+        "template-nested": (["function f(q) {{", "  return `a ${{q > {t} ? `big` : `small`}} b`;", "}}"], None),
+        "object-value": (["function f(q) {{", "  return {{ size: {t} }};", "}}"], None),
+        "ternary": (["function f(q) {{", "  return q ? {t} : q;", "}}"], None),
     },
     "rust": {
         "binop": (["fn f(q: i64) -> i64 {{", "    let y = q * {t};", "    y", "}}"], None),
@@ -153,7 +157,9 @@ def h_kinds(ctx):
     """A node of ANY grammar kind carrying the text 3975 / true / "12345" is collected as a numeric literal
     iff its kind is a numeric-literal kind of that grammar; const/static/enum context kinds decide exemption."""
     from vsym.nodes import Duck
-    from vsym.symkind import SKind, SymSet, kind_table
+    from vsym.symkind import SKind, SymSet, kind_table, symbolic_tables
+    import src.linters.magic_numbers.typescript_analyzer as ts_mod
+    import src.linters.magic_numbers.rust_analyzer as rs_mod
     lang = ctx.pick("grammar", ("typescript", "rust"))
     table = kind_table(lang)
     text = ctx.pick("text", ("3975", "true", "'12345'", "x123", "39.75"))
@@ -171,7 +177,8 @@ def h_kinds(ctx):
         # kinds that contain literals of their own must not be picked for the wrappers
         for k in (parent_kind, grand_kind):
             ctx.assume(k != "number")
-        lits = a.find_numeric_literals(root)
+        with symbolic_tables(A, ts_mod):
+            lits = a.find_numeric_literals(root)
         is_num = kind.is_one_of(numeric)
         parses = text in ("3975", "39.75")
         ctx.cover("collected" if lits else "not-collected")
@@ -187,11 +194,8 @@ def h_kinds(ctx):
         saved = A.NUMERIC_LITERAL_TYPES
         for k in (parent_kind, grand_kind):
             ctx.assume(Not(k.is_one_of(("integer_literal", "float_literal"))))
-        try:
-            A.NUMERIC_LITERAL_TYPES = SymSet(saved)
+        with symbolic_tables(A, rs_mod):
             lits = a.find_numeric_literals(root)
-        finally:
-            A.NUMERIC_LITERAL_TYPES = saved
         is_int, is_float = kind == "integer_literal", kind == "float_literal"
         parses = Or(And(is_int, text == "3975"), And(is_float, text in ("3975", "39.75")))
         ctx.cover("collected" if lits else "not-collected")
